@@ -509,7 +509,7 @@ pub fn gen_edge_cfg(t: &mut Tape) -> (Cfg, bool) {
         }
     };
     edge |= e(&mut c, t, "width", &["0", "1", "2", "3", "4", "5", "7", "9", "11", "13", "79", "81", "variable", "-1", "-80", "100-99", "3-1"], 4);
-    edge |= e(&mut c, t, "wrap-max-lines", &["0", "1", "unlimited", "∞", "1000000"], 6);
+    edge |= e(&mut c, t, "wrap-max-lines", &["0", "1", "unlimited", "∞", "40"], 6);
     edge |= e(&mut c, t, "max-line-length", &["0", "1", "2", "5", "10"], 6);
     edge |= e(&mut c, t, "tabs", &["0", "1", "100"], 8);
     edge |= e(&mut c, t, "line-buffer-size", &["0", "1"], 8);
